@@ -86,7 +86,7 @@ impl TryFrom<GameServer> for Target {
         let address = SocketAddr::new(ip, port);
 
         // add meta data
-        let mut meta = HashMap::from([(META_STATE.to_string(), status.state)]);
+        let mut meta = HashMap::new();
 
         // add counters and lists
         if let Some(counters) = &status.counters {
@@ -107,6 +107,9 @@ impl TryFrom<GameServer> for Target {
         for (annot, value) in server.annotations() {
             meta.insert(annot.clone(), value.clone());
         }
+
+        // the observed state always wins over a counter, list, label or annotation of the same name
+        meta.insert(META_STATE.to_string(), status.state);
 
         Ok(Self {
             identifier,
